@@ -102,6 +102,8 @@ def gen_recipe(rng: random.Random) -> dict[str, Any]:
 def generate(run_seed: int, tier: str) -> dict[str, Any]:
     rng = random.Random(run_seed)
     cfg = _flags(rng)
+    if rng.random() < 0.2:
+        cfg["dtype"] = "float32"  # the library's default precision, as a swarm member
     rec = gen_recipe(rng)
     big = [1000, 2000, 5000] if tier == "quick" else [1000, 5000, 20000, 50000]
     nvars = rec["nv"] if rec["kind"] == "dag" else recipes.rg_num_vars(rec["rg"])
@@ -154,16 +156,18 @@ def exact_distribution(cc: Any, rec: dict[str, Any], semiring: str) -> Exact | N
         y = oracles.evaluate(cc, X)[:, 0, 0]
         logc = D * np.log(sigma * np.sqrt(2 * np.pi))
         if semiring == "sum-product":
-            p = y.numpy() * np.exp(logc)
+            p = y.numpy().astype(np.float64) * np.exp(logc)
         else:
-            p = np.exp(y.numpy() + logc)
+            p = np.exp(y.numpy().astype(np.float64) + logc)
         return Exact(units, p, "gaussian_sig", ni)
     kind, k = recipes.input_domain(inp)
     if kind != "discrete" or k**D > MAX_STATES:
         return None
     states = oracles.all_states(D, k)
     y = oracles.evaluate(cc, states)[:, 0, 0]
-    p = y.numpy() if semiring == "sum-product" else np.exp(y.numpy())
+    p = y.numpy().astype(np.float64)
+    if semiring != "sum-product":
+        p = np.exp(p)
     return Exact(states, p, "discrete", k)
 
 
@@ -334,7 +338,8 @@ class WorldC:
             self.tr.count("sample:too-many-states")
             return "unchecked"
         tot = float(ex.probs.sum())
-        if not np.isfinite(ex.probs).all() or abs(tot - 1.0) > 1e-6 or ex.probs.min() < -1e-12:
+        ntol = 1e-4 if self.plan["config"].get("dtype") == "float32" else 1e-6
+        if not np.isfinite(ex.probs).all() or abs(tot - 1.0) > ntol or ex.probs.min() < -1e-12:
             # the circuit is not a normalised distribution for these values: C12's subject, and
             # outside the domain of C15
             self.tr.count("sample:circuit-not-normalised")
@@ -410,4 +415,10 @@ class WorldC:
 
 
 def run(plan: dict[str, Any], tr: Trace) -> dict[str, Any]:
+    if plan["config"].get("dtype") == "float32":
+        torch.set_default_dtype(torch.float32)
+        try:
+            return WorldC(plan, tr).run()
+        finally:
+            torch.set_default_dtype(torch.float64)
     return WorldC(plan, tr).run()
